@@ -121,3 +121,75 @@ Definition team_out (members : list pout) : pout :=
   | Some v => PDouble v
   | None => PVoid
   end.
+
+(* ---- classification evaluators on a TEAM ------------------------------------
+   basic_{dyn_slot,gaussian,binary}_lambda_f<team<T>> = team_class_lambda_f with
+   team_composition::wta: the constructor builds one classifier per member
+   (each from the whole dataset), tag() is the answer of the member with the
+   greatest sureness (C08's [wta]).  The evaluator then counts the mismatches
+   of that tag exactly as for an individual. *)
+Section TeamClassifiers.
+Variables libm_atan libm_exp : f64 -> f64.
+Variable outs : list (list pout -> pout).       (* one output oracle per member *)
+
+Definition wta_tag (tags : list (nat * f64)) : Z * f64 :=
+  match wta tags with
+  | Some (l, s) => (Z.of_nat l, s)
+  | None => (0, F64.nan)                 (* team_[0] of an empty team: not reached, teams are not empty *)
+  end.
+
+(* all members' constructors, in order; the first failure wins *)
+Fixpoint build_all {M : Type} (mk : (list pout -> pout) -> build M) (os : list (list pout -> pout))
+  : build (list ((list pout -> pout) * M)) :=
+  match os with
+  | [] => Built []
+  | o :: r =>
+      match mk o with
+      | Built m => match build_all mk r with Built t => Built ((o, m) :: t) | BuildThrows => BuildThrows | BuildUndefined => BuildUndefined end
+      | BuildThrows => BuildThrows
+      | BuildUndefined => BuildUndefined
+      end
+  end.
+
+Definition mk_dyn (classes x_slot : nat) (d : list example) (o : list pout -> pout) : build dyn_model :=
+  match train_of o classes d with
+  | Built tr => match dyn_build libm_atan classes x_slot tr with Some m => Built m | None => BuildUndefined end
+  | BuildThrows => BuildThrows
+  | BuildUndefined => BuildUndefined
+  end.
+Definition mk_gauss (classes : nat) (d : list example) (o : list pout -> pout) : build (list dist) :=
+  match train_of o classes d with
+  | Built tr => match gauss_build classes tr with Some g => Built g | None => BuildUndefined end
+  | BuildThrows => BuildThrows
+  | BuildUndefined => BuildUndefined
+  end.
+
+Definition dyn_team_tag (ms : list ((list pout -> pout) * dyn_model)) (i : list pout) : Z * f64 :=
+  wta_tag (map (fun om => match dyn_tag libm_atan (snd om) (to_out (fst om i)) with
+                          | Some t => t | None => (O, F64.nan) end) ms).
+Definition dyn_team_defined (ms : list ((list pout -> pout) * dyn_model)) (e : example) : bool :=
+  forallb (fun om => match dyn_tag libm_atan (snd om) (to_out (fst om (ex_in e))) with Some _ => true | None => false end) ms.
+Definition gauss_team_tag (ms : list ((list pout -> pout) * list dist)) (i : list pout) : Z * f64 :=
+  wta_tag (map (fun om => gauss_tag libm_exp (snd om) (to_out (fst om i))) ms).
+Definition binary_team_tag (i : list pout) : Z * f64 :=
+  wta_tag (map (fun o => LambdaDefs.binary_tag (to_out (o i))) outs).
+
+Definition dyn_slot_eval_team (classes x_slot : nat) (d : list example) : cls_outcome * option (list (Z * f64)) :=
+  match build_all (mk_dyn classes x_slot d) outs with
+  | BuildThrows => (Thrown d, None)
+  | BuildUndefined => (Undefined, None)
+  | Built ms =>
+      if forallb (dyn_team_defined ms) d
+      then (of_loop (dyn_slot_eval (dyn_team_tag ms) d), Some (map (fun e => dyn_team_tag ms (ex_in e)) d))
+      else (Undefined, None)
+  end.
+Definition gaussian_eval_team (classes : nat) (d : list example) : cls_outcome * option (list (Z * f64)) :=
+  match build_all (mk_gauss classes d) outs with
+  | BuildThrows => (Thrown d, None)
+  | BuildUndefined => (Undefined, None)
+  | Built ms => (of_loop (gaussian_eval (gauss_team_tag ms) (Z.of_nat classes) d),
+                 Some (map (fun e => gauss_team_tag ms (ex_in e)) d))
+  end.
+Definition binary_eval_team (d : list example) : cls_outcome * option (list (Z * f64)) :=
+  (of_loop (dyn_slot_eval binary_team_tag d), Some (map (fun e => binary_team_tag (ex_in e)) d)).
+End TeamClassifiers.
